@@ -101,6 +101,9 @@ type action struct {
 	RootSerial string   `json:"root_serial,omitempty"`
 	SignSerial string   `json:"sign_serial,omitempty"` // rotate: "" = default next
 	Collide    bool     `json:"collide,omitempty"`     // rotate: the override repeats an earlier serial
+	Overwrite  bool     `json:"overwrite,omitempty"`   // rotate: run with --overwrite (output.Options.Overwrite)
+	KeepGoing  bool     `json:"keep_going,omitempty"`  // rotate: run with --keep_going (output.Options.KeepGoing)
+	Race       *race    `json:"race,omitempty"`        // endorse: a key rotation takes effect while the command runs (c03_race_test.go)
 	TimeKind   string   `json:"time_kind,omitempty"`   // rotate: where the timestamp lies relative to the root's validity
 	Time       string   `json:"time,omitempty"`
 	Req        *request `json:"req,omitempty"`
@@ -120,6 +123,12 @@ func (a action) String() string {
 		if s == "" {
 			s = "next"
 		}
+		if a.Overwrite {
+			s += " --overwrite"
+		}
+		if a.KeepGoing {
+			s += " --keep_going"
+		}
 		return fmt.Sprintf("rotate(signCN=%q serial=%s, t=%s [%s])", a.SignCN, s, a.Time, a.TimeKind)
 	case "endorse":
 		r := a.Req
@@ -136,6 +145,9 @@ func (a action) String() string {
 		}
 		if r.TwoVCS {
 			out += " two-vcs"
+		}
+		if a.Race != nil {
+			out += " " + a.Race.String()
 		}
 		return fmt.Sprintf("endorse(%s, %s, clspec=%d commit=%dB, t=%s, %s)", a.ImageNote, tech, r.ClSpec, len(r.Commit)/2, r.Time, out)
 	}
@@ -210,6 +222,9 @@ type world struct {
 	keepCA     styp.CertificateAuthority
 	keepKM     keys.ManagerInterface
 	keepSig    styp.Signer
+	// hook, when set, sees every keys.Context the world builds for a command (after the recording
+	// signer is in place): the schedule owner of c03_race_test.go installs its doubles through it.
+	hook func(kc *keys.Context)
 }
 
 func newWorld(kind string, cli, reuse bool) (*world, error) {
@@ -253,12 +268,15 @@ func (w *world) diskCA() *gcsca.CertificateAuthority {
 // libContext builds a context for one library-level command: fresh component instances over the
 // persistent state (as successive CLI invocations have), or, with Reuse, the instances of the
 // first command again (as a long-lived process has).
-func (w *world) libContext(overwrite bool) (context.Context, error) {
-	ctx := output.NewContext(context.Background(), &output.Options{Quiet: true, Overwrite: overwrite})
+func (w *world) libContext(overwrite bool, keepGoing ...bool) (context.Context, error) {
+	ctx := output.NewContext(context.Background(), &output.Options{Quiet: true, Overwrite: overwrite, KeepGoing: len(keepGoing) > 0 && keepGoing[0]})
 	kc := &keys.Context{Random: rand.Reader}
 	ctx = keys.NewContext(ctx, kc)
 	if w.Reuse && w.keepCA != nil {
 		kc.CA, kc.Manager, kc.Signer = w.keepCA, w.keepKM, &recSigner{inner: w.keepSig, log: &w.signLog}
+		if w.hook != nil {
+			w.hook(kc)
+		}
 		return ctx, nil
 	}
 	var sig styp.Signer
@@ -278,6 +296,9 @@ func (w *world) libContext(overwrite bool) (context.Context, error) {
 	kc.Signer = &recSigner{inner: sig, log: &w.signLog}
 	if w.Reuse {
 		w.keepCA, w.keepKM, w.keepSig = kc.CA, kc.Manager, sig
+	}
+	if w.hook != nil {
+		w.hook(kc)
 	}
 	return ctx, nil
 }
@@ -301,6 +322,9 @@ func (w *world) cliRun(args []string) error {
 			return nil, err
 		}
 		kc.Signer = &recSigner{inner: kc.Signer, log: &w.signLog}
+		if w.hook != nil {
+			w.hook(kc)
+		}
 		return ctx, nil
 	}}
 	app := &cmd.AppComponents{
@@ -371,32 +395,48 @@ func (w *world) bootstrap(a action) (error, any) {
 	})
 }
 
+// cliRotate is one rotation through the command line.
+func (w *world) cliRotate(a action) error {
+	args := []string{"rotate", "--signing_key_cn=" + a.SignCN, "--timestamp=" + a.Time}
+	if a.SignSerial != "" {
+		args = append(args, "--rotated_key_serial_override="+a.SignSerial)
+	}
+	if a.Overwrite {
+		args = append(args, "--overwrite")
+	}
+	if a.KeepGoing {
+		args = append(args, "--keep_going")
+	}
+	return w.cliRun(args)
+}
+
 func (w *world) rotate(a action) (error, any) {
 	return w.run(func() error {
 		if w.CLI {
-			args := []string{"rotate", "--signing_key_cn=" + a.SignCN, "--timestamp=" + a.Time}
-			if a.SignSerial != "" {
-				args = append(args, "--rotated_key_serial_override="+a.SignSerial)
-			}
-			return w.cliRun(args)
+			return w.cliRotate(a)
 		}
-		ctx, err := w.libContext(false)
+		ctx, err := w.libContext(a.Overwrite, a.KeepGoing)
 		if err != nil {
 			return err
 		}
-		skc := &rotate.SigningKeyContext{SigningKeyCommonName: a.SignCN, Now: mustTime(a.Time)}
-		ctx = rotate.NewSigningKeyContext(ctx, skc)
-		if w.Kind == "kms" {
-			ctx = gcpkms.NewSigningKeyContext(ctx, &gcpkms.SigningKeyContext{SigningKeyID: kmsSigningKeyID})
-		}
-		if a.SignSerial != "" {
-			skc.SigningKeySerial = mustBig(a.SignSerial)
-		} else if skc.SigningKeySerial, err = sops.NextSigningKeySerial(ctx); err != nil { // what cmd.RotateCommand.InitContext does
-			return err
-		}
-		_, err = rotate.Key(ctx)
-		return err
+		return w.rotateLib(ctx, a)
 	})
+}
+
+// rotateLib is the library form of one rotation on the components of ctx (keys and output options).
+func (w *world) rotateLib(ctx context.Context, a action) (err error) {
+	skc := &rotate.SigningKeyContext{SigningKeyCommonName: a.SignCN, Now: mustTime(a.Time)}
+	ctx = rotate.NewSigningKeyContext(ctx, skc)
+	if w.Kind == "kms" {
+		ctx = gcpkms.NewSigningKeyContext(ctx, &gcpkms.SigningKeyContext{SigningKeyID: kmsSigningKeyID})
+	}
+	if a.SignSerial != "" {
+		skc.SigningKeySerial = mustBig(a.SignSerial)
+	} else if skc.SigningKeySerial, err = sops.NextSigningKeySerial(ctx); err != nil { // what cmd.RotateCommand.InitContext does
+		return err
+	}
+	_, err = rotate.Key(ctx)
+	return err
 }
 
 // outPaths lists the endorsement files a request makes the pipeline write.
@@ -423,12 +463,19 @@ func (w *world) outPaths(r *request, imageName string) []string {
 	return ps
 }
 
+// nextImageName is the image name the next endorse command of the world uses.
+func (w *world) nextImageName() string {
+	if w.CLI {
+		return fmt.Sprintf("ovmf%d.fd", w.nfw+1)
+	}
+	return "ovmf.fd"
+}
+
 func (w *world) endorse(a action) (paths []string, err error, pan any) {
 	r := a.Req
-	imageName := "ovmf.fd"
+	imageName := w.nextImageName()
 	if w.CLI {
 		w.nfw++
-		imageName = fmt.Sprintf("ovmf%d.fd", w.nfw)
 	}
 	paths = w.outPaths(r, imageName)
 	err, pan = w.run(func() error {
@@ -539,6 +586,7 @@ type fileRec struct {
 	Digests     [][]byte // every digest handed to the signer while the command ran
 	ImageSHA384 []byte
 	Copy        bool // a further file of the same command (second version-control root, SVSM snapshot)
+	Raced       bool // a key rotation took effect while the command that wrote it ran
 	cliDone     bool // the gcetcbendorsement inspect commands were run on it
 }
 
@@ -549,6 +597,7 @@ type model struct {
 	files     []*fileRec
 	rotations int
 	refused   int             // commands refused so far (the history went on without them)
+	rotFailed bool            // a rotation was refused part-way (it may have left a key version without a certificate behind)
 	usedSer   map[string]bool // CN \x00 serial of every certificate made so far
 	known     map[string]bool
 	salt      []int // drawn per history: verification zone / pool shape of successive judgements
@@ -558,6 +607,7 @@ type model struct {
 	primSerial *big.Int
 	primNB     time.Time
 	primNA     time.Time
+	primDER    []byte
 }
 
 func newModel(w *world, salt []int) *model {
@@ -611,7 +661,7 @@ func (m *model) refreshPrimary() {
 	if err != nil {
 		return
 	}
-	m.primCN, m.primNB, m.primNA = c.Subject.CommonName, c.NotBefore, c.NotAfter
+	m.primCN, m.primNB, m.primNA, m.primDER = c.Subject.CommonName, c.NotBefore, c.NotAfter, der
 	m.primSerial, _ = new(big.Int).SetString(c.Subject.SerialNumber, 10)
 	m.usedSer[c.Subject.CommonName+"\x00"+c.Subject.SerialNumber] = true
 }
@@ -720,7 +770,9 @@ func (m *model) judge(t ev.TB, f *fileRec, now time.Time, why string) {
 	}
 	if verr != nil {
 		key := "C03/verifier-rejects-pipeline-endorsement"
-		if rotAfter > 0 || f.RotBefore > 0 {
+		if f.Raced {
+			key = "C03/verifier-rejects-endorsement-written-while-a-rotation-took-effect"
+		} else if rotAfter > 0 || f.RotBefore > 0 {
 			key = "C03/verifier-rejects-pipeline-endorsement-around-rotation"
 		}
 		m.report(t, key, "verify.Endorsement = %v; %s", verr, ctxLine)
@@ -918,6 +970,9 @@ func (m *model) judge(t ev.TB, f *fileRec, now time.Time, why string) {
 	if f.Copy {
 		ev.Class("verify", "file is a further copy (second VCS root / SVSM snapshot)")
 	}
+	if f.Raced {
+		ev.Class("verify", "file written while a key rotation took effect")
+	}
 	if lo.Equal(m.root.NotBefore) && cert.NotBefore.Before(m.root.NotBefore) {
 		ev.Class("verify", "window starts at the root's NotBefore (certificate dated before the root)")
 	}
@@ -1099,6 +1154,9 @@ func (m *model) unusual(a action) []string {
 		if r.Snapshot != "" && r.SvsmImage {
 			why = append(why, "snapshot with an SVSM image")
 		}
+		if a.Race != nil && a.Race.fired {
+			why = append(why, "a key rotation took effect while the command ran")
+		}
 	}
 	if m.refused > 0 {
 		why = append(why, "an earlier command of this history was refused")
@@ -1116,6 +1174,16 @@ func (m *model) collides(a action) bool {
 		serial = new(big.Int).Add(m.primSerial, big.NewInt(1)).String()
 	}
 	return m.usedSer[a.SignCN+"\x00"+serial]
+}
+
+// dropFile returns the model's files without the one at path.
+func (m *model) dropFile(path string) []*fileRec {
+	for j, old := range m.files {
+		if old.Path == path {
+			return append(m.files[:j], m.files[j+1:]...)
+		}
+	}
+	return m.files
 }
 
 // step executes one action and judges. false = end of history.
@@ -1164,8 +1232,25 @@ func (m *model) step(t ev.TB, a action) bool {
 		}
 	case "rotate":
 		collides := a.Collide || m.collides(a)
+		if a.KeepGoing && !a.Overwrite && collides && w.Kind != "mem" {
+			// Found on the unchanged tree (reported, not repaired here): with --keep_going and without
+			// --overwrite the storage-backed authority does not write the new certificate over the
+			// existing object of that name, yet records the object for the new key version and makes it
+			// primary; every later endorsement embeds the previous key's certificate under a signature
+			// of the new key. Kept out by construction so that the search goes on behind it.
+			ev.Class("history", "excluded by construction: --keep_going without --overwrite on a repeated-name rotation of the storage-backed authority (flag dropped)")
+			a.KeepGoing = false
+			m.hist[len(m.hist)-1] = a.String()
+		}
 		ev.Class("history", "rotation timestamp "+a.TimeKind)
+		if a.Overwrite {
+			ev.Class("history", "rotation run with --overwrite")
+		}
+		if a.KeepGoing {
+			ev.Class("history", "rotation run with --keep_going")
+		}
 		if err, pan := w.rotate(a); err != nil || pan != nil {
+			m.rotFailed = true
 			if pan == nil && collides {
 				// refusing a rotation whose certificate would take an existing certificate's name is fine;
 				// the history goes on with the old primary
@@ -1177,6 +1262,12 @@ func (m *model) step(t ev.TB, a action) bool {
 		}
 		if collides {
 			ev.Class("history", "colliding-serial-rotation/performed ("+w.Kind+")")
+			if a.Overwrite {
+				ev.Class("history", "colliding-serial-rotation/performed with --overwrite ("+w.mode()+")")
+			}
+			if a.KeepGoing {
+				ev.Class("history", "colliding-serial-rotation/performed with --keep_going ("+w.mode()+")")
+			}
 		}
 		m.rotations++
 		m.refreshPrimary()
@@ -1188,29 +1279,59 @@ func (m *model) step(t ev.TB, a action) bool {
 		}
 	case "endorse":
 		before := len(w.signLog)
+		rotBefore := m.rotations
+		var rr *raceRun
+		if a.Race != nil {
+			rr = m.armRace(a)
+		}
 		paths, err, pan := w.endorse(a)
-		if err != nil || pan != nil {
-			return fail("endorse", err, pan)
+		raced := false
+		if rr != nil {
+			raced = m.settleRace(t, a, rr, paths, err != nil || pan != nil)
 		}
 		var digests [][]byte
 		for _, r := range w.signLog[before:] {
 			digests = append(digests, r.Digest)
 		}
 		sum := sha512.Sum384(a.Image)
-		for i, path := range paths {
-			f := &fileRec{Path: path, Req: a.Req, Step: n, RotBefore: m.rotations, Digests: digests, ImageSHA384: sum[:], Copy: i > 0}
-			for j, old := range m.files { // an overwritten file is replaced in the model
-				if old.Path == path {
-					m.files = append(m.files[:j], m.files[j+1:]...)
-					break
+		// endorsements issued before the interleaved rotation remain verifiable after it
+		oldAfterRace := func() {
+			for _, f := range m.files {
+				if raced && !f.Copy && f.Step != n {
+					m.judgeAt(t, f, "after-rotation", a.Nanos, a.Frac)
 				}
 			}
-			m.files = append(m.files, f)
+		}
+		if err != nil || pan != nil {
+			if rr != nil {
+				m.recordRace(a, rr, paths, true, raced)
+				oldAfterRace()
+			}
+			if rr != nil && rr.fired && pan == nil {
+				// whatever got written must verify, also when the command ended with an error
+				for i, path := range paths {
+					if now, rerr := os.ReadFile(path); rerr == nil && !bytes.Equal(now, rr.prior[path]) {
+						ev.Class("race", "a file was written although the raced command reported an error")
+						f := &fileRec{Path: path, Req: a.Req, Step: n, RotBefore: rotBefore, Digests: digests, ImageSHA384: sum[:], Copy: i > 0, Raced: true}
+						m.files = append(m.dropFile(path), f)
+						m.judgeAt(t, f, "fresh", a.Nanos, 0, a.Frac, 1)
+					}
+				}
+			}
+			return fail("endorse", err, pan)
+		}
+		for i, path := range paths {
+			f := &fileRec{Path: path, Req: a.Req, Step: n, RotBefore: rotBefore, Digests: digests, ImageSHA384: sum[:], Copy: i > 0, Raced: rr != nil && rr.fired}
+			m.files = append(m.dropFile(path), f) // an overwritten file is replaced in the model
 			if f.Copy {
 				m.judgeAt(t, f, "fresh", 0, a.Frac)
 			} else {
 				m.judgeAt(t, f, "fresh", a.Nanos, 0, a.Frac, 1)
 			}
+		}
+		if rr != nil {
+			m.recordRace(a, rr, paths, false, raced)
+			oldAfterRace()
 		}
 	case "verifyOld":
 		if len(m.files) == 0 {
@@ -1409,7 +1530,7 @@ var (
 	t0Hi = time.Date(2030, 1, 1, 0, 0, 0, 0, time.UTC)
 )
 
-const verifyRule = "rapid state machine over a certificate authority. World: authority drawn from {memca+memkm, gcsca over storage/local in a temp dir + localkm with keys on disk, gcsca over storage/local + keys/gcpkms (Manager and Signer, so rotate.GoogleCertificateTemplate makes the rotated certificates) over testing/testkms.FakeKmsServer}; driver drawn from {library entry points rotate.Bootstrap / rotate.Key / endorse.VirtualFirmware with a fresh context and fresh component instances per command, the same with ONE set of instances for the whole history (long-lived process), cmd.MakeApp with a fresh command tree per command (memca and localkm worlds)}; keys come from the real key generators fed with pooled primes (all keys of a history differ). History = bootstrap(common names, root/signing serials, t0 in 2015..2030 with fractional seconds and zone offsets) followed by <= 7 actions from rotate(common name, serial override / default next / a serial that repeats an earlier certificate's, timestamp {inside the root's validity with the certificate nested in it, certificate outliving the root, exactly the root's NotAfter, BEFORE the root's NotBefore but overlapping}), endorse(image, request), verifyOld(i, t). Requests: SNP / TDX / both, VMSA count 0 (all 15) / 1 / a supported count / any 2..300, Milan or Genoa (never the zero product), optional family and image ids, optional 48-byte SVSM measurement, machine shapes any subset of the six supported (order varied), early accept, provenance ALWAYS present (ClSpec, commit or both; commit 20 bytes, through the library also 32 or 1..64 bytes), document timestamp before / after / at / 1 ns / 0.5 s / 1 s around 2 Aug 2024 or inside the current signing certificate's validity, output {manifest method: candidate names and output directories (unique, default basename, or --overwrite of an earlier file); snapshot method (--snapshot_dir: <image>.signed, with an SVSM image also svsm.igvm.signed); library only: two version-control roots in endorse.Context.VCSs}; images from fwgen (valid, 1-16 pages, SEV+TDX metadata) and, for about one endorsement in forty, the 2 MiB fakeovmf.CleanExample (which the plain TestRotationSmoke histories also endorse in every world). A recording signer wrapper notes every digest handed to the signer. Oracle, for every file f the command wrote and a time t in [max NotBefore, min NotAfter] of (root, embedded certificate) - t passed in a drawn zone, the pool holding the authority's root alone or next to an unrelated root: verify.Endorsement(file bytes, pool, Now=t) == nil and the `gcetcbendorsement verify FILE --root_cert` command agrees; EndorsementProto with ExpectedUefiSha384 = SHA-384(image) accepts as well; pki.RefAuthentic (independent chain + window + RSA-PSS) on the same bytes; InspectPayload / InspectSignature / InspectMask(cert) with BytesRaw AND the commands `gcetcbendorsement inspect payload|signature|mask --path=cert FILE` with their default --bytesform writing to a non-terminal (the documented `openssl ... <(gcetcbendorsement inspect ...)` flow; once per file) are byte-equal to the stored payload, signature and embedded certificate, and RSA-PSS(SHA-256, salt 32) verifies over exactly those three outputs; sha256(stored payload) is one of the digests the signer was handed while the command ran; the document timestamp lies on the same side of 2 Aug 2024 as the request's (differences below one second: timestamp resolution, counted only); every listed SNP (count -> measurement) accepted by verify.SNP with that count (count 1: accepted without a count; with count 1 verify.SNP compares with the SVSM value by design - noted, not flagged), the SVSM value accepted with count 1, every TDX row inside TdxPolicy(row.ram).AnyMrTd. Evaluated: both end points and a drawn interior time right after every endorse; every file so far at both end points and a drawn interior time after every rotation; verifyOld at a drawn t; a window of a single instant once. A command that goes beyond the plain use of the tools (see model.unusual: free-form or changed common name, serial beyond 63 bits or not above the current one, certificate name already taken, rotation timestamp outside the nested range, VMSA count that is not offered, commit that is not 20 bytes, document dated outside the signing certificate's validity, two VCS roots, SVSM snapshot, anything after a refused command) may be refused: counted as inconclusive, the history goes on; the refusal of a plain command and every panic are reported. non-trivial = >= 1 rotation before the endorsement or between its creation and the verification; distinct = (world/driver, rotations before/after capped at 2, request shape, time class, trigger, copy)"
+const verifyRule = "rapid state machine over a certificate authority. World: authority drawn from {memca+memkm, gcsca over storage/local in a temp dir + localkm with keys on disk, gcsca over storage/local + keys/gcpkms (Manager and Signer, so rotate.GoogleCertificateTemplate makes the rotated certificates) over testing/testkms.FakeKmsServer}; driver drawn from {library entry points rotate.Bootstrap / rotate.Key / endorse.VirtualFirmware with a fresh context and fresh component instances per command, the same with ONE set of instances for the whole history (long-lived process), cmd.MakeApp with a fresh command tree per command (memca and localkm worlds)}; keys come from the real key generators fed with pooled primes (all keys of a history differ). History = bootstrap(common names, root/signing serials, t0 in 2015..2030 with fractional seconds and zone offsets) followed by <= 7 actions from rotate(common name, serial override / default next / a serial that repeats an earlier certificate's, the command-wide flags --overwrite (output.Options.Overwrite; drawn for 2 in 3 of the repeated-serial rotations - it is what lets the storage-backed authority REWRITE the certificate object of that name in place, so that a long-lived authority object must not serve what it read from that object before - and for 1 in 6 of the others) and --keep_going (1 in 6; dropped, and counted, on a repeated-name rotation of a storage-backed authority without --overwrite: see the assumptions), timestamp {inside the root's validity with the certificate nested in it, certificate outliving the root, exactly the root's NotAfter, BEFORE the root's NotBefore but overlapping}), endorse(image, request; about one in four RACED by a key rotation, see 'race'), verifyOld(i, t). Requests: SNP / TDX / both, VMSA count 0 (all 15) / 1 / a supported count / any 2..300, Milan or Genoa (never the zero product), optional family and image ids, optional 48-byte SVSM measurement, machine shapes any subset of the six supported (order varied), early accept, provenance ALWAYS present (ClSpec, commit or both; commit 20 bytes, through the library also 32 or 1..64 bytes), document timestamp before / after / at / 1 ns / 0.5 s / 1 s around 2 Aug 2024 or inside the current signing certificate's validity, output {manifest method: candidate names and output directories (unique, default basename, or --overwrite of an earlier file); snapshot method (--snapshot_dir: <image>.signed, with an SVSM image also svsm.igvm.signed); library only: two version-control roots in endorse.Context.VCSs}; images from fwgen (valid, 1-16 pages, SEV+TDX metadata) and, for about one endorsement in forty, the 2 MiB fakeovmf.CleanExample (which the plain TestRotationSmoke histories also endorse in every world). A recording signer wrapper notes every digest handed to the signer. Oracle, for every file f the command wrote and a time t in [max NotBefore, min NotAfter] of (root, embedded certificate) - t passed in a drawn zone, the pool holding the authority's root alone or next to an unrelated root: verify.Endorsement(file bytes, pool, Now=t) == nil and the `gcetcbendorsement verify FILE --root_cert` command agrees; EndorsementProto with ExpectedUefiSha384 = SHA-384(image) accepts as well; pki.RefAuthentic (independent chain + window + RSA-PSS) on the same bytes; InspectPayload / InspectSignature / InspectMask(cert) with BytesRaw AND the commands `gcetcbendorsement inspect payload|signature|mask --path=cert FILE` with their default --bytesform writing to a non-terminal (the documented `openssl ... <(gcetcbendorsement inspect ...)` flow; once per file) are byte-equal to the stored payload, signature and embedded certificate, and RSA-PSS(SHA-256, salt 32) verifies over exactly those three outputs; sha256(stored payload) is one of the digests the signer was handed while the command ran; the document timestamp lies on the same side of 2 Aug 2024 as the request's (differences below one second: timestamp resolution, counted only); every listed SNP (count -> measurement) accepted by verify.SNP with that count (count 1: accepted without a count; with count 1 verify.SNP compares with the SVSM value by design - noted, not flagged), the SVSM value accepted with count 1, every TDX row inside TdxPolicy(row.ram).AnyMrTd. Evaluated: both end points and a drawn interior time right after every endorse; every file so far at both end points and a drawn interior time after every rotation; verifyOld at a drawn t; a window of a single instant once. A command that goes beyond the plain use of the tools (see model.unusual: free-form or changed common name, serial beyond 63 bits or not above the current one, certificate name already taken, rotation timestamp outside the nested range, VMSA count that is not offered, commit that is not 20 bytes, document dated outside the signing certificate's validity, two VCS roots, SVSM snapshot, a key rotation that took effect while the command ran, anything after a refused command) may be refused: counted as inconclusive, the history goes on; the refusal of a plain command and every panic are reported. non-trivial = >= 1 rotation before the endorsement or between its creation and the verification; distinct = (world/driver, rotations before/after capped at 2, request shape, time class, trigger, copy)"
 
 func genFracNanos(t *rapid.T) (float64, int) {
 	fr := rapid.Float64Range(0.0001, 0.9999).Draw(t, "frac")
@@ -1440,7 +1561,8 @@ func genRotTime(t *rapid.T, root *x509.Certificate) (string, string) {
 
 func TestHistories(t *testing.T) {
 	ev.Rule("verify", verifyRule)
-	ev.Rule("history", "one record per history of the state machine described under 'verify': class = world/driver, plus counters for rotation timestamp kinds, colliding-serial rotations per world and refused (inconclusive) commands; non-trivial = it contains a performed rotation and an endorsement")
+	ev.Rule("race", raceRule)
+	ev.Rule("history", "one record per history of the state machine described under 'verify': class = world/driver, plus counters for rotation timestamp kinds, rotations run with --overwrite / --keep_going, colliding-serial rotations per world (performed, performed with --overwrite or --keep_going per world/driver, refused) and refused (inconclusive) commands; non-trivial = it contains a performed rotation and an endorsement")
 	bigImage = fakeovmf.CleanExample(t, 2*1024*1024)
 	checks(ev.Scale(80, 200))
 	rapid.Check(t, func(t *rapid.T) {
@@ -1509,12 +1631,24 @@ func TestHistories(t *testing.T) {
 						a.Collide = true
 					}
 				}
+				// --overwrite is a flag of every command; on a rotation it lets the storage-backed authority
+				// rewrite a certificate object that is already there (a repeated serial), so it is drawn
+				// more often for those
+				if a.Collide {
+					a.Overwrite = rapid.IntRange(0, 2).Draw(t, "rotOverwriteRepeat") > 0
+				} else {
+					a.Overwrite = rapid.IntRange(0, 5).Draw(t, "rotOverwrite") == 0
+				}
+				a.KeepGoing = rapid.IntRange(0, 5).Draw(t, "rotKeepGoing") == 0
 				a.Time, a.TimeKind = genRotTime(t, m.root)
 				a.Frac, a.Nanos = genFracNanos(t)
 			case "endorse":
 				a = action{Kind: "endorse", Req: genRequest(t, nEnd, m)}
 				a.Image, a.ImageNote = genImage(t, rapid.IntRange(0, 39).Draw(t, "image2MiB") == 23)
 				a.Frac, a.Nanos = genFracNanos(t)
+				if rapid.IntRange(0, 3).Draw(t, "raced") == 0 {
+					a.Race = genRace(t, m, &lastCN)
+				}
 				nEnd++
 				endorsed = true
 			default:
